@@ -99,6 +99,10 @@ def generate(g, tier):
         depth = r.randint(0, 2)
         quoted = g.chance(0.6)
         body = [(r.choice(['', ' ', '  ', '\t', '   ']) if quoted else '', r.choice(['WHATEVER x', 'IF TRUE', 'string  y ', '$notevaluated 1+1', 'DELAY abc', 'REM r', 'END_IF', '"']) ) for _ in range(r.randint(1, 4))]
+        # inside the quoted region a line that merely CONTAINS the quotes — indented deeper than the delimiters, possibly followed
+        # by blanks or text — is content like any other
+        if quoted:
+            body = [(ind, r.choice(['"""', '"""  ', '""" doc', '"""\t'])) if ind != '' and g.chance(0.3) else (ind, t) for ind, t in body]
         ls = [unit * d + 'IF TRUE' for d in range(depth)]
         base = unit * depth
         ls.append(base + r.choice(['IGNORE', 'ignore']))
